@@ -32,7 +32,8 @@
   repair of defect D18: `checkRelList_nil_eq_none_iff`, `createTable_ok_nodup`,
   `createTable_not_nodup`), `SInvMid.createTable` (2d, result record `CreatedTable`),
   `SInvMid.createTable_total` (success under `CacheRelsOK`); `getTable_state`,
-  `getTable_some_mem` (2e); `SInv.findOrCreateTableAdd_of_ok(_rinv)` (3, general, on success),
+  `getTable_some_mem` (2e; the duplicate scan added to the slow path by the repair of defect D26:
+  `namedTwice_nil_eq_false_iff`); `SInv.findOrCreateTableAdd_of_ok(_rinv)` (3, general, on success),
   `SInv.findOrCreateTableAdd_spec(_new)` (3, total, relation-free case),
   `findOrCreateTableAdd_reject`.
 -/
@@ -653,6 +654,49 @@ theorem checkRelList_nil_eq_none_iff (A : Archetype) (rels : List RelID) :
   constructor
   · rintro ⟨⟨h1, _⟩, h3⟩; exact ⟨h1, h3⟩
   · rintro ⟨h1, h3⟩; exact ⟨⟨h1, fun _ _ hm => by cases hm⟩, h3⟩
+
+/-- the duplicate scan of `getTableSlowPath` (repair of defect D26) passes exactly when no
+    relation component is named twice (nor is among those seen before) -/
+theorem namedTwice_eq_false_iff (seen : List Comp) (rels : List RelID) :
+    namedTwice seen rels = false ↔
+      (rels.map (·.comp)).Nodup ∧ ∀ (r : RelID), r ∈ rels → r.comp ∉ seen := by
+  induction rels generalizing seen with
+  | nil => simp [namedTwice]
+  | cons r rest ih =>
+    simp only [namedTwice, Bool.or_eq_false_iff, ih, List.map_cons, List.nodup_cons]
+    constructor
+    · rintro ⟨hs, h1, h2⟩
+      have hs' : r.comp ∉ seen := fun hm => by
+        rw [List.contains_iff_mem.2 hm] at hs; cases hs
+      refine ⟨⟨?_, h1⟩, ?_⟩
+      · intro hm
+        obtain ⟨r', hr', he⟩ := List.mem_map.1 hm
+        exact h2 r' hr' (by rw [he]; exact List.mem_cons_self)
+      · intro r' hr'
+        rcases List.mem_cons.1 hr' with rfl | hm
+        · exact hs'
+        · exact fun hin => h2 r' hm (List.mem_cons_of_mem _ hin)
+    · rintro ⟨⟨h1, h2⟩, h3⟩
+      refine ⟨?_, h2, ?_⟩
+      · cases hc : seen.contains r.comp with
+        | false => rfl
+        | true => exact absurd (List.contains_iff_mem.1 hc) (h3 r List.mem_cons_self)
+      · intro r' hr' hin
+        rcases List.mem_cons.1 hin with he | hm
+        · exact h1 (List.mem_map.2 ⟨r', hr', he⟩)
+        · exact h3 r' (List.mem_cons_of_mem _ hr') hm
+
+/-- **the duplicate scan of `getTableSlowPath` passes exactly when no relation component is
+    named twice** -/
+theorem namedTwice_nil_eq_false_iff (rels : List RelID) :
+    namedTwice [] rels = false ↔ (rels.map (·.comp)).Nodup := by
+  rw [namedTwice_eq_false_iff]
+  exact ⟨fun h => h.1, fun h => ⟨h, fun _ _ hm => by cases hm⟩⟩
+
+theorem namedTwice_nil_eq_true_iff (rels : List RelID) :
+    namedTwice [] rels = true ↔ ¬ (rels.map (·.comp)).Nodup := by
+  rw [← namedTwice_nil_eq_false_iff]
+  cases namedTwice [] rels <;> simp
 
 /-- the first loop of `createTable` panics only with "named twice" or the index −1 runtime panic -/
 theorem checkRelList_some (A : Archetype) (seen : List Comp) (rels : List RelID) (k : PanicKind)
@@ -1535,7 +1579,9 @@ theorem getTable_state (a : Nat) (rels : List RelID) (w : World) : (getTable a r
           · rfl
           · split
             · rfl
-            · exact (getTable_go_spec _ _ _).1
+            · split
+              · rfl
+              · exact (getTable_go_spec _ _ _).1
 
 theorem getTable_ok_state {a : Nat} {rels : List RelID} {w w' : World} {r : Option Nat}
     (h : getTable a rels w = .ok r w') : w' = w := by
@@ -1567,9 +1613,11 @@ theorem getTable_some_mem {a : Nat} {rels : List RelID} {w w' : World} {t : Nat}
           · cases h
           · split at h
             · cases h
-            · rename_i ts hfind
-              have hr' : (w.arch a).hasRelations = true := by simpa using hr
-              exact hidx hr' _ _ ts hfind t ((getTable_go_spec _ _ _).2 t w' h)
+            · split at h
+              · cases h
+              · rename_i ts hfind
+                have hr' : (w.arch a).hasRelations = true := by simpa using hr
+                exact hidx hr' _ _ ts hfind t ((getTable_go_spec _ _ _).2 t w' h)
 
 /-- `getTable` on an archetype without relation columns: its first table, if any -/
 theorem getTable_noRel {a : Nat} (rels : List RelID) {w : World}
